@@ -4,6 +4,7 @@ import (
 	"fmt"
 	"os"
 	"strings"
+	"time"
 
 	"verif/engine/solver"
 	"verif/engine/sym"
@@ -141,10 +142,64 @@ func (ex *Exec) checkWith(t *sym.Term) (solver.Result, *sym.Model) {
 	if err != nil {
 		ex.solverFail("feasibility query", err)
 	}
+	if r == solver.Unknown && ex.ArithFallback {
+		// decimal / index arithmetic that bit-blasting does not finish: one-shot
+		// cvc5 with integer blasting on the standalone script of PC ∧ t
+		r, m = ex.arithFallback(t)
+		if r != solver.Unknown {
+			ex.FallbackResolved++
+		}
+	}
 	if r == solver.Unknown {
 		ex.solverFail("solver answered unknown on a feasibility query", nil)
 	}
 	return r, m
+}
+
+// arithFallback decides PC ∧ t with a one-shot portfolio: z3 4.8.12 and z3 5.1
+// with their full preprocessing (not available to the incremental solver)
+// and cvc5 --solve-bv-as-int=sum; the first definite answer wins.
+func (ex *Exec) arithFallback(t *sym.Term) (solver.Result, *sym.Model) {
+	script, _ := ex.standalone(t)
+	var sb strings.Builder
+	sb.WriteString("(set-option :produce-models true)\n(set-logic ALL)\n")
+	sb.WriteString(script)
+	// make sure every input is declared (inputs not in the cone of influence are free)
+	for _, in := range ex.inputs {
+		if !strings.Contains(script, "(declare-const "+in.Name+" ") {
+			fmt.Fprintf(&sb, "(declare-const %s %s)\n", in.Name, in.S)
+		}
+	}
+	sb.WriteString("(check-sat)\n")
+	if len(ex.inputs) > 0 {
+		sb.WriteString("(get-value (")
+		for _, in := range ex.inputs {
+			sb.WriteString(in.Name + " ")
+		}
+		sb.WriteString("))\n")
+	}
+	ex.FallbackQueries++
+	if d := os.Getenv("VERIF_DUMPQ"); d != "" {
+		os.WriteFile(fmt.Sprintf("%s/q%d.smt2", d, ex.FallbackQueries), []byte(sb.String()), 0o644)
+	}
+	res := solver.Race([]solver.OneShot{solver.Z3Old, solver.Z3New, solver.CVC5Int}, sb.String(), 90*time.Second)
+	ex.FallbackBy[res.Solver]++
+	ex.FallbackTime += res.Dur
+	out := strings.TrimSpace(res.Out)
+	switch {
+	case strings.HasPrefix(out, "unsat"):
+		return solver.Unsat, nil
+	case strings.HasPrefix(out, "sat"):
+		m := sym.NewModel()
+		rest := strings.TrimSpace(strings.TrimPrefix(out, "sat"))
+		if rest != "" {
+			if err := solver.ParseValues(rest, m); err != nil {
+				return solver.Unknown, nil
+			}
+		}
+		return solver.Sat, m
+	}
+	return solver.Unknown, nil
 }
 
 func (ex *Exec) setModel(m *sym.Model) {
@@ -296,6 +351,9 @@ func (ex *Exec) decide(c *sym.Term) bool {
 			}
 			return r
 		}
+	}
+	if v, ok := ex.rangeDecide(c); ok {
+		return v
 	}
 	// a condition already decided on this path (hash-consed: the same term)
 	// needs no further query
@@ -476,3 +534,141 @@ func debugf(format string, args ...any) {
 }
 
 var _ = strings.TrimSpace
+
+func addOv64(a, b int64) (int64, bool) {
+	r := a + b
+	if (a > 0 && b > 0 && r < 0) || (a < 0 && b < 0 && r >= 0) {
+		return 0, true
+	}
+	return r, false
+}
+
+func mulOv64(a, b int64) (int64, bool) {
+	if a == 0 || b == 0 {
+		return 0, false
+	}
+	r := a * b
+	if r/b != a || (a == -1 && b == -1<<63) || (b == -1 && a == -1<<63) {
+		return 0, true
+	}
+	return r, false
+}
+
+// rangeOf returns a signed interval of t (as a mathematical integer equal
+// to its signed AND, when non-negative, unsigned value) implied by the
+// ranges recorded for input variables on this path. Only exact,
+// non-wrapping arithmetic is followed.
+func (ex *Exec) rangeOf(t *sym.Term) (lo, hi int64, ok bool) {
+	if t.S.K != sym.KBV || t.S.W > 64 {
+		return 0, 0, false
+	}
+	w := t.S.W
+	fits := func(l, h int64) (int64, int64, bool) {
+		// must be representable as a non-negative value of the width, or (for 64 bit) any int64
+		if w < 64 && (l < 0 || h >= int64(1)<<w) {
+			return 0, 0, false
+		}
+		return l, h, true
+	}
+	switch t.Op {
+	case sym.OConst:
+		if w == 64 {
+			return int64(t.Val), int64(t.Val), true
+		}
+		return int64(t.Val), int64(t.Val), true
+	case sym.OVar:
+		if r, ok := ex.varRange[t.ID]; ok {
+			return int64(r[0]), int64(r[1]), true
+		}
+	case sym.OZExt:
+		l, h, ok := ex.rangeOf(t.Args[0])
+		if ok && l >= 0 {
+			return l, h, true
+		}
+	case sym.OSExt:
+		l, h, ok := ex.rangeOf(t.Args[0])
+		if ok && l >= 0 && h < int64(1)<<(t.Args[0].S.W-1) {
+			return l, h, true
+		}
+	case sym.OAdd:
+		al, ah, ok1 := ex.rangeOf(t.Args[0])
+		bl, bh, ok2 := ex.rangeOf(t.Args[1])
+		if ok1 && ok2 {
+			l, o1 := addOv64(al, bl)
+			h, o2 := addOv64(ah, bh)
+			if !o1 && !o2 {
+				return fits(l, h)
+			}
+		}
+	case sym.OMul:
+		al, ah, ok1 := ex.rangeOf(t.Args[0])
+		bl, bh, ok2 := ex.rangeOf(t.Args[1])
+		if ok1 && ok2 && al >= 0 && bl >= 0 {
+			l, o1 := mulOv64(al, bl)
+			h, o2 := mulOv64(ah, bh)
+			if !o1 && !o2 {
+				return fits(l, h)
+			}
+		}
+	case sym.ONeg:
+		if w == 64 {
+			l, h, ok := ex.rangeOf(t.Args[0])
+			if ok && l > -1<<63 {
+				return -h, -l, true
+			}
+		}
+	}
+	return 0, 0, false
+}
+
+// rangeDecide decides comparisons that the recorded intervals settle.
+func (ex *Exec) rangeDecide(c *sym.Term) (bool, bool) {
+	if len(ex.varRange) == 0 {
+		return false, false
+	}
+	neg := false
+	for c.Op == sym.ONot {
+		c = c.Args[0]
+		neg = !neg
+	}
+	if c.N != 2 || c.Args[0].S.K != sym.KBV {
+		return false, false
+	}
+	al, ah, ok1 := ex.rangeOf(c.Args[0])
+	bl, bh, ok2 := ex.rangeOf(c.Args[1])
+	if !ok1 || !ok2 {
+		return false, false
+	}
+	unsignedOK := al >= 0 && bl >= 0
+	res, known := false, false
+	switch c.Op {
+	case sym.OULe, sym.OSLe:
+		if c.Op == sym.OULe && !unsignedOK {
+			return false, false
+		}
+		if ah <= bl {
+			res, known = true, true
+		} else if al > bh {
+			res, known = false, true
+		}
+	case sym.OULt, sym.OSLt:
+		if c.Op == sym.OULt && !unsignedOK {
+			return false, false
+		}
+		if ah < bl {
+			res, known = true, true
+		} else if al >= bh {
+			res, known = false, true
+		}
+	case sym.OEq:
+		if ah < bl || bh < al {
+			res, known = false, true
+		} else if al == ah && bl == bh && al == bl {
+			res, known = true, true
+		}
+	}
+	if !known {
+		return false, false
+	}
+	return res != neg, true
+}
